@@ -613,7 +613,25 @@ func TestVerifH5(t *testing.T) {
 			}
 		}
 		if a := w.c.getTCPAllocation(); a != nil {
+			// drain the queued attempts, then block in Accept with nothing queued: Close must release it
+			for i := 0; i < 10; i++ { // the queue holds 10 of the 14 attempts; a nil conn consumes one and fails the cast
+				_, _ = a.AcceptTCPWithConn(nil)
+			}
+			released := make(chan error, 1)
+			go func() {
+				_, err := a.AcceptTCPWithConn(nil)
+				released <- err
+			}()
+			synctest.Wait()
 			_ = a.Close()
+			synctest.Wait()
+			select {
+			case <-released:
+			default:
+				vt.Alarm("accept-blocked-after-close", "an Accept blocked on the TCP allocation is still blocked after Close returned")
+				_ = a.SetDeadline(time.Now()) // release it so that the bubble can end
+				synctest.Wait()
+			}
 		}
 		w.c.Close()
 		w.cpc.Close()
